@@ -487,6 +487,19 @@ def shapes(tier, seed):
     add("gate_eq/CRX/multi-control", h_gate_eq, dict(n1="CRX", n2="CRX", tg=1, ct=[0, 3], p1="a", p2="a+d", rng=(-3, 3)), policy=pole)
     add("gate_eq/RX/const", h_gate_eq, dict(n1="RX", n2="RX", tg=0, ct=None, p1="a", p2=3 * math.pi), policy=pole)
     add("gate_eq/CNOT-CX", h_gate_eq, dict(n1="CNOT", n2="CX", tg=1, ct=0, p1=None, p2=None), policy=pole)
+    # every ordered pair of DIFFERENT parameter-less gate names on the same qubits (a name-blind comparison must not make
+    # different operations "equal"); and pairs of different parameterised names with the same symbolic angle
+    import itertools as _it
+    for n1_, n2_ in _it.permutations(["CNOT", "CX", "CY", "CZ", "CH"], 2):
+        if {n1_, n2_} == {"CNOT", "CX"}:
+            continue
+        add(f"gate_eq/names/{n1_}-{n2_}", h_gate_eq, dict(n1=n1_, n2=n2_, tg=1, ct=0, p1=None, p2=None), policy=pole)
+    for n1_, n2_ in _it.permutations(["H", "X", "Y", "Z", "S", "T"], 2):
+        add(f"gate_eq/names/{n1_}-{n2_}", h_gate_eq, dict(n1=n1_, n2=n2_, tg=0, ct=None, p1=None, p2=None), policy=pole)
+    for n1_, n2_ in (("CRX", "CRY"), ("CRZ", "CPHASE"), ("RZ", "PHASE"), ("CPHASE", "CRZ"), ("SWAP", "XX")):
+        two = n1_ in ("SWAP", "XX")
+        add(f"gate_eq/names/{n1_}-{n2_}", h_gate_eq, dict(n1=n1_, n2=n2_, tg=([0, 1] if two else 1), ct=(None if two or n1_ in ("RZ",) else 0),
+                                                          p1=(None if n1_ == "SWAP" else "a"), p2="a"), policy=pole)
     add("gate_eq/RX-RY", h_gate_eq, dict(n1="RX", n2="RY", tg=1, ct=None, p1="a", p2="a"), policy=pole)
     add("canary/gate_eq/RX", h_gate_eq, dict(n1="RX", n2="RX", tg=0, ct=None, p1="a", p2="a+d", rng=(-3, 3), canary=True), policy=pole, canary=True)
 
